@@ -17,8 +17,9 @@ RULE = ('Hypothesis draws recursive tagged trees over None/bool/int(<2^64)/'
         'finite float/str(incl. near-miss "!units[" forms)/list/tuple/set/'
         'str-keyed dict/numpy scalars/numeric, bool and string arrays (<=3 '
         'dims)/Quantity (int <2^53, float incl. 0,-x,1e+-300, subnormal, nan, '
-        '+-inf, numpy scalar, 1-D array magnitudes; 18 base, prefixed and '
-        'compound units)/Unit/Process/function, and a negative class (non-str '
+        '+-inf, numpy scalar, 1-D array magnitudes; units: 18 curated ones plus '
+        'every SI prefix x 40 base units (vetted with pint alone) combined as '
+        'a, a/b, a*b, a**2, 1/a)/Unit/Process/function, and a negative class (non-str '
         'key, np.str_ key, object(), complex, bytes, frozenset, ints outside '
         '64 bit) placed anywhere in the tree; each positive tree goes through '
         'serialize_value (plain-JSON predicate, idempotence), deserialize_value '
@@ -37,6 +38,38 @@ UNITS = ['gram', 'milligram', 'femtogram', 'liter', 'mole', 'millimole',
          'second', '1 / second', 'gram / liter', 'mole / liter / second',
          'meter ** 2', 'micrometer', 'count', 'dimensionless',
          'gram ** 2 / liter', 'kelvin', 'hour', 'millimolar']
+
+# a wider pool: every SI prefix x common multiplicative base units, vetted with
+# pint alone (the name must parse and survive pint's own str() round trip)
+PREFIXES = ['', 'yocto', 'zepto', 'atto', 'femto', 'pico', 'nano', 'micro',
+            'milli', 'centi', 'deci', 'deca', 'hecto', 'kilo', 'mega', 'giga',
+            'tera', 'peta', 'exa', 'zetta', 'yotta']
+BASES = ['meter', 'gram', 'second', 'mole', 'liter', 'molar', 'kelvin',
+         'ampere', 'candela', 'newton', 'joule', 'watt', 'pascal', 'hertz',
+         'coulomb', 'volt', 'ohm', 'farad', 'tesla', 'henry', 'siemens',
+         'lumen', 'becquerel', 'gray', 'katal', 'minute', 'hour', 'day',
+         'radian', 'bit', 'byte', 'dalton', 'electron_volt', 'calorie', 'bar',
+         'inch', 'pound', 'gallon', 'count', 'dimensionless']
+_POOL = []
+
+
+def unit_pool():
+    if not _POOL:
+        from vivarium.library.units import units
+        for base in BASES:
+            for prefix in PREFIXES:
+                if prefix and base in ('count', 'dimensionless', 'minute',
+                                       'hour', 'day'):
+                    continue
+                name = prefix + base
+                try:
+                    q = 1.5 * units(name).units
+                    if units(str(q)) == q and units(str(q)).units == q.units:
+                        _POOL.append(str(q.units))
+                except Exception:
+                    pass
+        _POOL.sort()
+    return _POOL
 
 SPECIAL_FLOATS = ['nan', 'inf', '-inf']
 
@@ -481,8 +514,30 @@ def arrays(draw):
 
 
 @st.composite
+def pool_units(draw):
+    """A unit expression over the wide pool: a, a / b, a * b, a ** 2, 1 / a."""
+    pool = unit_pool()
+    a = draw(st.sampled_from(pool))
+    shape = draw(st.sampled_from(['a', 'a', 'a/b', 'a*b', 'a**2', '1/a']))
+    if a == 'dimensionless':
+        return a
+    if shape == 'a':
+        return a
+    if shape == 'a**2':
+        return '%s ** 2' % a
+    if shape == '1/a':
+        return '1 / %s' % a
+    b = draw(st.sampled_from(pool))
+    if b == 'dimensionless':
+        return a
+    from vivarium.library.units import units
+    expr = '%s %s %s' % (a, '/' if shape == 'a/b' else '*', b)
+    return str(units(expr).units)       # pint's canonical spelling
+
+
+@st.composite
 def quantities(draw):
-    unit = draw(st.sampled_from(UNITS))
+    unit = draw(st.one_of(st.sampled_from(UNITS), pool_units()))
     mag = draw(st.one_of(
         st.integers(-2 ** 53 + 1, 2 ** 53 - 1).map(lambda v: {'t': 'int', 'v': v}),
         st.integers(-5, 5).map(lambda v: {'t': 'int', 'v': v}),
@@ -525,7 +580,8 @@ def trees(leaves):
 
 def leaves(with_bad):
     opts = [scalars, scalars, np_scalars, arrays(), quantities(), quantities(),
-            st.sampled_from(UNITS).map(lambda u: {'t': 'unit', 'unit': u}),
+            st.one_of(st.sampled_from(UNITS), pool_units()).map(
+                lambda u: {'t': 'unit', 'unit': u}),
             st.just({'t': 'proc'}), st.just({'t': 'func'}),
             st.lists(hashables, max_size=4).map(lambda v: {'t': 'set', 'v': v})]
     if with_bad:
